@@ -234,7 +234,18 @@ def specStep (st : SSt) (op : Op) (out : Out) (nb : List Bounds) : SSt × Option
     | .sleep ms, .ok =>
       let s1 := { st with now := st.now + ms }
       (closeTx s1 (expiring s1) false, none)
-    | .fetch _ _, .fetch _ _ _ => (st, none)
+    | .fetch f _, .fetch el _ _ _ =>
+      -- a fetch may wait (MinBytes): at most MaxWait, and only if fewer than MinBytes were readable when it arrived;
+      -- transactions that time out meanwhile are aborted
+      let views := match st.sess.find? (fun s => s.id == f.sid) with
+        | some se => if f.sepoch > 0 then f.req.foldl viewUpdate (se.views.filter (fun v => !f.forget.contains v.p)) else f.req.foldl viewUpdate []
+        | none => f.req.foldl viewUpdate []
+      let wkey : Option String :=
+        if el < 0 || el > f.maxWait then some "fetch-wait-exceeded"
+        else if el > 0 && availBytes st f.rc views ≥ f.minBytes then some "fetch-waited-with-data"
+        else none
+      let s1 := { st with now := st.now + el }
+      (closeTx s1 (expiring s1) false, wkey)
     | _, _ => (st, some "answer-shape")
   -- log start: moves only by an acknowledged DeleteRecords, to the requested offset
   let lsKey : Option String := firstSome ((List.range np).map (fun q =>
@@ -252,7 +263,7 @@ def specStep (st : SSt) (op : Op) (out : Out) (nb : List Bounds) : SSt × Option
   -- fetch clauses (evaluated against the bounds before = after)
   let (st3, fKey) : SSt × Option String :=
     match op, out with
-    | .fetch f _, .fetch err sid ps =>
+    | .fetch f _, .fetch _ err sid ps =>
       if err != 0 then (st2, none) else
       let offOf (views : List SView) (p : Nat) : Int :=
         match f.req.find? (fun r => r.p == p) with
